@@ -57,6 +57,23 @@ def confirm(src, i, sid):
         json.dump(meta, open(os.path.join(d, 'meta.json'), 'w'), indent=1)
     return res.get('confirmed')
 
+def reconfirm(sid):
+    """re-run the confirmation of a filed seed on the current /repo HEAD (after a fix: commit changed the tree); prints whether it still is a seed"""
+    d = os.path.join(SEEDED, sid); src = tempfile.mkdtemp(prefix='vxre_')
+    try:
+        shutil.copy(os.path.join(d, 'patch.diff'), os.path.join(src, 'patch1.diff'))
+        if os.path.exists(os.path.join(d, 'demo.rs')): shutil.copy(os.path.join(d, 'demo.rs'), os.path.join(src, 'demo1.rs'))
+        else: shutil.copy(os.path.join(d, 'demo.patch'), os.path.join(src, 'demo1.patch'))
+        m = json.load(open(os.path.join(d, 'meta.json')))
+        keep = {k: m[k] for k in m if k in ('detection_quick',)}
+        for k in ('confirmation', 'confirmed_by', 'detection_quick'): m.pop(k, None)
+        json.dump(m, open(os.path.join(src, 'meta1.json'), 'w'), indent=1)
+        ok = confirm(src, 1, sid)
+        print('RECONFIRM', sid, 'still a seed' if ok else 'NO LONGER CONFIRMED')
+        return ok
+    finally:
+        shutil.rmtree(src, ignore_errors=True)
+
 def detect_scratch(sid, props=None):
     """development aid: same as detect but on a scratch copy of /repo (no witness replay, /repo untouched); not recorded as the official result"""
     d = os.path.join(SEEDED, sid)
@@ -137,6 +154,8 @@ def table():
 if __name__ == '__main__':
     cmd = sys.argv[1]
     if cmd == 'confirm': sys.exit(0 if confirm(sys.argv[2], sys.argv[3], sys.argv[4]) else 1)
+    if cmd == 'reconfirm':
+        for s in sys.argv[2:]: reconfirm(s)
     if cmd == 'detect': detect(sys.argv[2], sys.argv[3:] or None)
     if cmd == 'scratch': detect_scratch(sys.argv[2], sys.argv[3:] or None)
     if cmd == 'scratch-all':
